@@ -6,15 +6,17 @@ metadata part of `tokenAwareHostPolicy` (policies.go):
   clusterMeta.resetTokenRing          (partitioner "" / unsupported: the ring is left as it is)
   tokenAwareHostPolicy.updateReplicas (ONE keyspace: recomputed from the schema read NOW and the ring, entry
                                        dropped when the schema cannot be read / has no usable strategy / no ring)
+  tokenAwareHostPolicy.updateAllReplicas (the repair of KF-C10-4: on every ring change the session keyspace AND
+                                       every keyspace meta.replicas holds an entry for are recomputed)
   AddHost, AddHosts, RemoveHost, HostUp, HostDown, SetPartitioner, KeyspaceChanged
   the lookup Pick makes on the stored snapshot (`meta.replicas[ks].replicasFor(token)`, else GetHostForToken)
 
 The replica-map computation itself is `Placement.simpleReplicaMap` / `Placement.ntsReplicaMap` (Model/Placement.lean).
 The environment the policy reads (what `getKeyspaceMetadata(ks)` answers now) is part of the state and is changed
 by the event `setSchema` (no call into the policy: the schema became readable / unreadable / was altered / dropped).
-`fresh` is a ghost field (specification device, never read by the model of the code): the keyspaces whose entry
-was (re)computed by the policy after the last change of their schema and — for keyspaces other than the session
-keyspace — after the last recomputation of the ring.
+`fresh` is a ghost field (specification device, never read by the model of the code): the keyspaces whose schema has
+not changed since the policy last read it (updateReplicas, called by KeyspaceChanged for that keyspace and by every
+ring change for the session keyspace and every keyspace with an entry).
 
 Core Lean only.
 -/
@@ -45,6 +47,23 @@ structure PHost where
   addr : Nat
   toks : List Int
 
+/-- `meta.replicas`, a Go map keyspace → replica map: an association list with at most one pair per key; each entry
+carries the partitioner it was computed under (= the dynamic type of its tokens) -/
+abbrev RepTab := List (Nat × (Part × ReplicaRing))
+
+/-- `meta.replicas[ks]` -/
+def getKs (f : RepTab) (ks : Nat) : Option (Part × ReplicaRing) :=
+  match f with
+  | [] => none
+  | (k, v) :: rest => if k = ks then some v else getKs rest ks
+
+def dropKs (f : RepTab) (ks : Nat) : RepTab := f.filter (fun e => !(e.1 == ks))
+
+def setKs (f : RepTab) (ks : Nat) (rr : Part × ReplicaRing) : RepTab := (ks, rr) :: dropKs f ks
+
+/-- the keys of the map -/
+def keysOf (f : RepTab) : List Nat := f.map (·.1)
+
 structure PolState where
   sessKs : Nat                          -- t.getKeyspaceName()
   schema : Nat → Option Strat           -- ENVIRONMENT: what getKeyspaceMetadata(ks) answers now (none = error)
@@ -52,13 +71,16 @@ structure PolState where
   part : Part                           -- t.partitioner
   ring : Option (Part × List Entry)     -- meta.tokenRing (none = nil, also when no metadata was ever stored), with
                                         -- the partitioner it was built for (= the dynamic type of its tokens)
-  replicas : Nat → Option (Part × ReplicaRing)   -- meta.replicas, each entry with the dynamic type of its tokens
+  replicas : RepTab                     -- meta.replicas, each entry with the dynamic type of its tokens
   crashed : Bool                        -- a panic of replicaMap escaped (the policy mutex stays locked)
   fresh : List Nat                      -- GHOST
 
 def polInit (sessKs : Nat) (schema : Nat → Option Strat) : PolState :=
   { sessKs := sessKs, schema := schema, hosts := [], part := .unset, ring := none,
-    replicas := fun _ => none, crashed := false, fresh := [] }
+    replicas := [], crashed := false, fresh := [] }
+
+/-- `meta.replicas[ks]` of the stored snapshot -/
+def PolState.entry (s : PolState) (ks : Nat) : Option (Part × ReplicaRing) := getKs s.replicas ks
 
 /-- `strat.replicaMap(meta.tokenRing)`; `none` = getStrategy returned nil -/
 def replicaMapOf (ring : List Entry) : Strat → Option (Except Crash ReplicaRing)
@@ -72,14 +94,6 @@ def ownersOf (hosts : List PHost) : List (Host × List Int) := hosts.map (fun p 
 "unsupported partitioner" error — the ring of the copied metadata is then left as it was -/
 def resetTokenRing (s : PolState) : Option (Part × List Entry) :=
   if s.part.supported then some (s.part, buildRing (ownersOf s.hosts)) else s.ring
-
-abbrev RepTab := Nat → Option (Part × ReplicaRing)
-
-def dropKs (f : RepTab) (ks : Nat) : RepTab :=
-  fun k => if k = ks then none else f k
-
-def setKs (f : RepTab) (ks : Nat) (rr : Part × ReplicaRing) : RepTab :=
-  fun k => if k = ks then some rr else f k
 
 /-- `updateReplicas(meta, keyspace)`: the new map holds every OTHER keyspace's entry unchanged and an entry for
 `keyspace` iff the schema is readable, getStrategy is non-nil and the ring is non-nil. -/
@@ -96,10 +110,19 @@ def updateReplicas (s : PolState) (ks : Nat) : PolState :=
       | some (.ok rr) => { s with replicas := setKs s.replicas ks (p, rr), fresh := fr }
       | some (.error _) => { s with crashed := true }
 
-/-- `meta := getMetadataForUpdate(); meta.resetTokenRing(…); updateReplicas(meta, getKeyspaceName()); metadata.Store(meta)`
+/-- the keyspaces `updateAllReplicas` recomputes: the session keyspace, then every other key of `meta.replicas`
+(Go iterates the map in an unspecified order; the recomputations are independent of each other) -/
+def allKeyspaces (s : PolState) : List Nat :=
+  s.sessKs :: (keysOf s.replicas).filter (fun k => !(k == s.sessKs))
+
+/-- `updateAllReplicas(meta)` (the repair of KF-C10-4): `updateReplicas` for the session keyspace and for every
+keyspace the metadata holds an entry for -/
+def updateAllReplicas (s : PolState) : PolState := (allKeyspaces s).foldl updateReplicas s
+
+/-- `meta := getMetadataForUpdate(); meta.resetTokenRing(…); updateAllReplicas(meta); metadata.Store(meta)`
 — on a panic nothing is stored. -/
 def recompute (s : PolState) : PolState :=
-  let s2 := updateReplicas { s with ring := resetTokenRing s, fresh := [] } s.sessKs
+  let s2 := updateAllReplicas { s with ring := resetTokenRing s }
   if s2.crashed then { s with crashed := true } else s2
 
 def hasAddr (hosts : List PHost) (a : Nat) : Bool := hosts.any (fun p => p.addr == a)
@@ -151,13 +174,13 @@ def polLookup (s : PolState) (ks : Nat) (t : Int) : Lookup :=
   match s.ring with
   | none => .noring
   | some (p, ring) =>
-    match s.replicas ks with
+    match s.entry ks with
     | none => .hosts (pickReplicas ring [] t)
     | some (q, rr) => if rr ≠ [] ∧ q ≠ p then .typePanic else .hosts (pickReplicas ring rr t)
 
 /-- did the answer come from the replica map ("replicas") or from GetHostForToken ("owner") -/
 def polLookupSrc (s : PolState) (ks : Nat) (t : Int) : Bool :=
-  match s.replicas ks with
+  match s.entry ks with
   | none => false
   | some (_, rr) => (replicasFor rr t).isSome
 
@@ -194,5 +217,27 @@ def lookup (s : PolState) (ks : Nat) (t : Int) : Lookup :=
         orOwner (Placement.Spec.nts ring rfs t) (owner ring t)
       | _ => owner ring t)
 
+/-- the specification expects NO entry for the keyspace: there is no ring, or the schema is unreadable / has no usable
+strategy (the lookup then starts from the primary owner) -/
+def noEntryExpected (s : PolState) (ks : Nat) : Bool :=
+  match curRing s with
+  | none => true
+  | some _ =>
+    match s.schema ks with
+    | none => true
+    | some .unusable => true
+    | _ => false
+
 end Spec
+
+/-- the hypothesis of `C10_pick_spec`, decidable (the harness classifies its queries by it, op `psettled`): the schema
+of the keyspace has not changed since the policy last read it (GHOST `fresh`) AND the policy holds an entry for it, or
+it is the session keyspace, or the specification expects no entry.  What is left out among the fresh keyspaces: a
+keyspace other than the session keyspace WITHOUT entry although its schema is usable and a ring exists — its last
+KeyspaceChanged was processed while the policy had no token ring yet; the policy recomputes only the session keyspace
+and the keyspaces it holds an entry for, so that keyspace is served from the primary owner until its next
+KeyspaceChanged (like a keyspace no KeyspaceChanged ever arrived for). -/
+def settled (s : PolState) (ks : Nat) : Bool :=
+  s.fresh.contains ks && ((s.entry ks).isSome || ks == s.sessKs || Spec.noEntryExpected s ks)
+
 end PlacementPol
